@@ -117,8 +117,9 @@ pub struct Cfg {
     pub only: Option<(String, u64)>,
     /// running under Miri (or another very slow interpreter): tiny workloads, no watchdog
     pub tiny: bool,
-    /// wall-clock budget per stage in seconds (new cases are not started after it)
+    /// wall-clock budget of the whole process in seconds (new cases are not started after it)
     pub budget_s: f64,
+    pub started: Instant,
     /// shard i of n (used by miri/asan process sharding): only indices idx % n == i
     pub shard: (u64, u64),
     /// stage-name filter (comma separated prefixes), empty = all
@@ -134,7 +135,11 @@ impl Cfg {
     /// number of cases: (tiny, quick, thorough)
     pub fn n(&self, tiny: u64, quick: u64, thorough: u64) -> u64 {
         if self.tiny {
-            tiny
+            if self.quick() {
+                tiny
+            } else {
+                tiny * 8
+            }
         } else if self.quick() {
             quick
         } else {
@@ -545,6 +550,7 @@ where
     });
     let merged = Mutex::new(Report::default());
     let budget = Duration::from_secs_f64(cfg.budget_s);
+    let started = cfg.started;
     let truncated = AtomicBool::new(false);
 
     std::thread::scope(|sc| {
@@ -598,7 +604,7 @@ where
                     if this % cfg.shard.1 != cfg.shard.0 {
                         continue;
                     }
-                    if t0.elapsed() > budget {
+                    if started.elapsed() > budget {
                         truncated.store(true, Ordering::Relaxed);
                         break;
                     }
